@@ -67,6 +67,7 @@ type Frame struct {
 	params map[string]Term // entry values of parameters by name
 	callN  map[string]int
 	site   string // for inlined frames: the call site (chain)
+	glocals map[string]Term // per-activation ghost variables (top frame only)
 }
 
 type deferred struct {
@@ -138,6 +139,12 @@ func (st *State) clone() *State {
 		c.callN = map[string]int{}
 		for k, v := range f.callN {
 			c.callN[k] = v
+		}
+		if f.glocals != nil {
+			c.glocals = map[string]Term{}
+			for k, v := range f.glocals {
+				c.glocals[k] = v
+			}
 		}
 		c.parent = copyFr(f.parent)
 		return &c
@@ -358,6 +365,24 @@ func (s *Session) havocAll(st *State) {
 	}
 	st.heap = keep
 	st.epoch = epochCounter
+	// ... except those whose address was handed to other code (call arguments, stores)
+	for f := st.fr; f != nil; f = f.parent {
+		for v, r := range f.regs {
+			a, ok := v.(*ssa.Alloc)
+			if !ok || !a.Heap {
+				continue
+			}
+			ref, isT := r.(Term)
+			t := a.Type().Underlying().(*types.Pointer).Elem()
+			if !isT || isStructLike(t) || !s.addrEscapes(a) {
+				continue
+			}
+			k, so := boxKey(t)
+			cur := s.H(st, k, so)
+			nv := s.freshTyped(st, "esc_"+a.Comment, t)
+			st.heap[k] = Store(cur, ref, nv)
+		}
+	}
 	nb := s.H(st, "$brk", SInt)
 	st.assume(Le(oldBrk, nb))
 	s.assumeGlobalInvs(st)
@@ -381,6 +406,45 @@ func (s *Session) checkGlobalInvs(st *State, pos token.Pos) {
 			s.check(st, "globalinv", s.obl("globalinv#"+clauseLabel(gi, i), ""), s.evalBool(st, env, gi.E, gi.Src), pos)
 		}
 	}
+}
+
+// addrEscapes: the address of local a is passed to a call or stored (so code
+// other than the closures capturing it may write it).
+func (s *Session) addrEscapes(a *ssa.Alloc) bool {
+	if a.Referrers() == nil {
+		return false
+	}
+	for _, r := range *a.Referrers() {
+		switch x := r.(type) {
+		case *ssa.Call:
+			for _, arg := range x.Call.Args {
+				if arg == a {
+					return true
+				}
+			}
+		case *ssa.Go:
+			for _, arg := range x.Call.Args {
+				if arg == a {
+					return true
+				}
+			}
+		case *ssa.Defer:
+			for _, arg := range x.Call.Args {
+				if arg == a {
+					return true
+				}
+			}
+		case *ssa.Store:
+			if x.Val == a {
+				return true
+			}
+		case *ssa.MakeInterface:
+			return true
+		case *ssa.ChangeType, *ssa.Convert:
+			return true
+		}
+	}
+	return false
 }
 
 func (s *Session) havocKey(st *State, key string) {
